@@ -160,38 +160,44 @@ def constructScalarCore (ext : Ext) (tag value : String) (m : Mark) : Except Loa
 def tMerge : String := "tag:yaml.org,2002:merge"
 def tValue : String := "tag:yaml.org,2002:value"
 
+/-- the mappings of a `<<: [m1, m2]` value, each flattened; `none` if an item is not a mapping -/
+def mergeSeqItems (flat : List (Node × Node) → Option (List (Node × Node))) :
+    List Node → Option (List (List (Node × Node)))
+  | [] => some []
+  | x :: xs =>
+    match x with
+    | .map _ qs _ =>
+      (match flat qs.toList, mergeSeqItems flat xs with
+       | some f, some r => some (f :: r)
+       | _, _ => none)
+    | _ => none
+
+/-- the pairs a `<<` value contributes (`submerge.reverse()` for a sequence) -/
+def mergedOf (flat : List (Node × Node) → Option (List (Node × Node))) : Node → Option (List (Node × Node))
+  | .map _ qs _ => flat qs.toList
+  | .seq _ xs _ => (mergeSeqItems flat xs.toList).map (fun l => l.reverse.flatten)
+  | .scalar _ _ _ => none
+
+/-- one pass of `flatten_mapping` over the pairs: (merged pairs, remaining pairs) -/
+def flattenStep (flat : List (Node × Node) → Option (List (Node × Node))) :
+    List (Node × Node) → Option (List (Node × Node) × List (Node × Node))
+  | [] => some ([], [])
+  | p :: ps =>
+    match flattenStep flat ps with
+    | none => none
+    | some (merge, rest) =>
+      if p.1.tag == tMerge then
+        (match mergedOf flat p.2 with
+         | some f => some (f ++ merge, rest)
+         | none => none)
+      else if p.1.tag == tValue then some (merge, (p.1.setTag tStr, p.2) :: rest)
+      else some (merge, p :: rest)
+
 /-- flatten the `<<` keys of a mapping's pairs; `none` = ConstructorError.  Merged mappings are
 flattened recursively, hence the fuel. -/
 def flattenPairs : Nat → List (Node × Node) → Option (List (Node × Node))
   | 0, _ => none
-  | fuel + 1, ps =>
-    let step := ps.foldl (fun (acc : Option (List (Node × Node) × List (Node × Node))) p =>
-      match acc with
-      | none => none
-      | some (merge, rest) =>
-        if p.1.tag == tMerge then
-          match p.2 with
-          | .map _ qs _ =>
-            (match flattenPairs fuel qs.toList with
-             | some f => some (merge ++ f, rest)
-             | none => none)
-          | .seq _ xs _ =>
-            -- a sequence of mappings: later ones first (`submerge.reverse()`)
-            let subs := xs.toList.foldl (fun (a : Option (List (List (Node × Node)))) x =>
-              match a, x with
-              | some l, .map _ qs _ =>
-                (match flattenPairs fuel qs.toList with | some f => some (l ++ [f]) | none => none)
-              | _, _ => none) (some [])
-            (match subs with
-             | some l => some (merge ++ l.reverse.flatten, rest)
-             | none => none)
-          | _ => none
-        else if p.1.tag == tValue then
-          some (merge, rest ++ [(p.1.setTag tStr, p.2)])
-        else some (merge, rest ++ [p])) (some ([], []))
-    match step with
-    | none => none
-    | some (merge, rest) => some (merge ++ rest)
+  | fuel + 1, ps => (flattenStep (flattenPairs fuel) ps).map (fun r => r.1 ++ r.2)
 
 /-! ### the constructors -/
 
